@@ -681,9 +681,9 @@ func isFailEdge(fail []an.CtrlEdge, from, to *ssa.BasicBlock) bool {
 // established by an invariant the analyser does not derive; one line of reason
 // each (keyed by function and sliced value).
 var sliceBoundsByConstruction = map[string]string{
-	"(*internal/engine.matcherCompiler).compileSliceDots|c.metavars": "seen was len(c.metavars) at an earlier point and c.metavars only grows (append-to-self)",
-	"(*internal/parse/section.programSplitter).next|p.content":       "startOffset is set from offset at the start of the token and offset only moves forward (C08-R1 offset-forward)",
-	"internal/pgo/augment.rewrite|src":                               "augmentations are sorted by Start before the loop and do not overlap; lastOffset is the End of the previous one",
+	"internal/engine|c.metavars":       "seen was len(c.metavars) at an earlier point and c.metavars only grows (append-to-self)",
+	"internal/parse/section|p.content": "startOffset is set from offset at the start of the token and offset only moves forward (C08-R1 offset-forward)",
+	"internal/pgo/augment|src":         "augmentations are sorted by Start before the loop and do not overlap; lastOffset is the End of the previous one",
 }
 
 func c08SliceBounds(r *an.Run) {
@@ -716,7 +716,7 @@ func c08SliceBounds(r *an.Run) {
 					r.Pass(key, s.Pos(), "low <= high holds at %s[%s:%s]: %s", base, an.Describe(s.Low), an.Describe(s.High), why)
 					continue
 				}
-				if why, ok := sliceBoundsByConstruction[key]; ok {
+				if why, ok := sliceBoundsByConstruction[rel+"|"+base]; ok {
 					r.Pass(key+"|audited", s.Pos(), "audited by construction: %s", why)
 					continue
 				}
@@ -1211,7 +1211,8 @@ func c10GuardsReachMatcher(r *an.Run) {
 					continue
 				}
 				n++
-				if short(f) == "internal/pgo.Parse" {
+				if rel == "internal/pgo" {
+					// the pattern parser (Parse or a stage of it) builds the file from what go/parser read
 					c10ParserFillsGuards(r, f, al)
 					continue
 				}
